@@ -265,6 +265,7 @@ PROPS["C14"] = {
         H(_PT, "c14_latest_ping_only", "tracker armed iff latest ping unanswered; deadline = its send time + timeout in force; rtt only from a matching pong (= now - send time); stale/forged pongs change nothing", "every history of 3 operations, clock in 100 ms ticks", timeout=900, stub_env=True, stubs=["rand::random", "Instant::now"]),
         H(_PT, "c14_latest_ping_only_4_steps", "same as c14_latest_ping_only", "every history of 4 operations", tier="thorough", timeout=3000, stub_env=True, stubs=["rand::random", "Instant::now"]),
         H(_PT, "c14_timeout_is_clamped_triple_rtt", "ping_timeout() == clamp(3*rtt, 500 ms, max), max when unmeasured", "max 1..=120 s, rtt 0..=200 s in ms", timeout=900),
+        H(_PT, "c14_timeout_total_for_any_max", "ping_timeout() never panics and stays within [min(500 ms, max), max] for every configured maximum, also below the 500 ms floor", "max: any u32 ms, rtt 0..=200 s", timeout=900),
         H(_PT, "c14_stale_pong_ignored", "a pong for an older ping or with forged data changes nothing", "2 pings, 3 pongs", stub_env=True, stubs=["rand::random", "Instant::now"]),
         W(_PT, "c14_witness"),
     ],
